@@ -10,7 +10,7 @@ from luqum.parser import parser
 from luqum.pretty import Prettifier
 
 SETTINGS = [(i, m, o) for i in (0, 1, 4) for m in (1, 10, 80) for o in (False, True)]
-LONG = {"TERM": ["alpha_beta_gamma_delta", "epsilonzetaetatheta", "iotakappalambdamu"], "PHRASE": ['"a long phrase with words"', '"another one"']}
+LONG = {"TERM": ["alpha_beta_gamma_delta", "epsilonzetaetatheta", "iotakappalambdamu"], "PHRASE": ['"a long phrase with words"', '"two  blanks   inside"', '"another one"']}
 
 
 def render(seq, long_):
@@ -85,13 +85,15 @@ def main():
             qs.append(render(seq, True))
     qs += ["a AND (b OR (c AND (d OR (e AND (f OR g)))))", "f:(alpha beta gamma) OR g:(delta AND epsilon AND zeta) OR NOT eta^2",
            "(a OR b) AND (c OR d) AND (e OR f) AND [1 TO 2] AND \"p q\"~3", "\"a\nb\" AND c", "/x\ny/ OR d", "\"line one\nline two\" \"three\"",
-           "a b c d e f g h i j k l m n o p", "x:(y:(z:(w OR v) AND u) AND t)", "+alpha -beta NOT gamma delta^3 epsilon~2"]
+           "a b c d e f g h i j k l m n o p", "f:\"a  b\" AND c", "/x  y/ OR d", "\"a\tb\" c OR \"  lead\" AND \"trail  \"", "a OR b OR a",
+           "k AND l OR k AND l", "a  b AND c d", "f:(aaa bbb AND ccc)", "g:(\"u  v\"~2 w) x",
+           "x:(y:(z:(w OR v) AND u) AND t)", "+alpha -beta NOT gamma delta^3 epsilon~2"]
     res = pmap(check, qs)
     failures = [f for r in res for f in r[1]]
     rest, hit = classify(failures, p.get("known", []))
     emit({"ok": not rest, "evaluations": sum(r[0] for r in res), "distinct_nontrivial": len(qs),
           "rule": "queries = accepted token sequences of <= %d tokens with short texts, and with long texts when they contain a term or "
-                  "phrase, + 9 hand-picked (deep nesting, line breaks inside phrases/regexes); x 18 settings; distinct = queries" % p["max_tokens"],
+                  "phrase, + 17 hand-picked (deep nesting, line breaks and runs of blanks inside phrases/regexes, repeated operands); x 18 settings; distinct = queries" % p["max_tokens"],
           "bound": "token sequences <= %d x 18 settings" % p["max_tokens"],
           "samples": [{"query": "a AND (b OR c)", "settings": [4, 10, False], "pretty": Prettifier(4, 10)(parser.parse("a AND (b OR c)"))}],
           "failures": rest[:40], "known": hit, "known_covered": len(failures) - len(rest)})
